@@ -806,6 +806,11 @@ def run_case(contract, case, tier="quick", known=None, do_crosscheck=True, seed=
             refute_by_sampling(contract, case, res, n=(12 if tier == "quick" else 60), seed=seed)
         except Exception:
             res.crosscheck["error"] = traceback.format_exc()
+    elif res.unsupported and res.error is None and case.crosscheck and do_crosscheck:
+        try:
+            refute_by_sampling_native(contract, case, res, n=(25 if tier == "quick" else 200), seed=seed)
+        except Exception:
+            res.crosscheck["error"] = traceback.format_exc()
     # replay refuted obligations natively
     for entry in res.obligations:
         zm = entry.pop("_zmodel", None)
@@ -1161,6 +1166,50 @@ def refute_by_sampling(contract, case, res, n=12, seed=0):
                                         model=_plain(cx.assignment), goal="postcondition %s evaluated on the native result" % nm,
                                         replay=dict(mode="model", reproduced=True, inputs=_plain(cx.assignment), native_outcome=repr(outcome)[:300],
                                                     note="found by running the real code on a sampled model of the precondition")))
+
+
+def refute_by_sampling_native(contract, case, res, n=25, seed=0):
+    """the same for cases that run natively on plain numbers (cases with crosscheck=True): sampled inputs satisfying requires, the real function, the posts"""
+    rng = random.Random(seed * 7907 + hash(case.name) % 100000)
+    models = contract.models() if contract.models else default_models()
+    seen = set()
+    for _ in range(n):
+        try:
+            asg = case.sample(rng) if case.sample else _sample_assignment(case, contract, rng, models)
+        except (Unsupported, PathEnd):
+            return
+        if asg is None:
+            continue
+        try:
+            cxn, out = run_native(case, asg)
+        except Exception:
+            continue
+        if not requires_hold(cxn):
+            continue
+        if out.kind == "raise" and isinstance(out.exc, OverflowError):
+            continue
+        failed = []
+        if out.kind == "raise":
+            ok = any(isinstance(out.exc, cls) and _native_truth(when) is not False for cls, when in cxn.allowed_raises)
+            if not ok:
+                failed.append(("no_raise[%s]" % type(out.exc).__name__, _describe_exc(out.exc)))
+        if cxn.post_fn is not None and not failed:
+            try:
+                posts = cxn.post_fn(out) or []
+            except Exception:
+                posts = []
+            for nm, g in posts:
+                if _native_truth(g) is False:
+                    failed.append((nm, ""))
+        for nm, where in failed:
+            if nm in seen:
+                continue
+            seen.add(nm)
+            res.obligations.append(dict(name="%s#%s#%s" % (case.target, case.name, nm), path=-1, where=where, kind="post", verdict="refuted",
+                                        backend="sampling of the precondition on the real code (symbolic proof undecided)", seconds=0.0,
+                                        model=dict(asg), goal="postcondition %s evaluated on the native result" % nm,
+                                        replay=dict(reproduced=True, inputs=dict(asg), native_outcome=repr(out)[:300],
+                                                    note="found by running the real code on a sampled input satisfying the precondition")))
 
 
 def _plain(d):
